@@ -13,7 +13,9 @@ RULE = ("(1) histories of 2..8 files (clean / violating .c and .h, fatal by garb
         "in a child forked from a pristine process, as main() does; oracle: the result of every step (status incl. fatal message, diagnostics "
         "with columns and order) equals the result of that file alone in its own fresh fork; (2) the same files in reversed order; (3) the "
         "rules directory listing permuted (os.listdir patched before norminette is imported, in a spawned interpreter): results on a generated "
-        "corpus equal those under the sorted listing; non-trivial = history with >=2 steps whose earlier step is erroneous/fatal/other file type "
+        "corpus equal those under the sorted listing; (4) the non-fatal files of the history given to ONE command-line run (main(), forked), each in "
+        "its own directory, also the same content under another base name: every file's block of the report (verdict, diagnostics) equals "
+        "the block it gets as the only argument; non-trivial = history with >=2 steps whose earlier step is erroneous/fatal/other file type "
         "and whose later step is a probe or a clean file; distinct by the class sequence and SHA-1 of the texts")
 
 
@@ -34,8 +36,8 @@ COMMENT_TEMPLATES = [
 
 def step_file(d):
     """-> (class, name, text)"""
-    k = d.weighted([(4, "clean.c"), (2, "clean.h"), (4, "viol"), (2, "fatal-garbage"), (2, "fatal-if"), (1, "fatal-if-deep"), (2, "lexical"),
-                    (2, "deep-parens"), (2, "bad-chars"), (1, "empty"), (3, "comment-scan"), (2, "header-only"), (2, "broken-header"), (1, "comments-only")])
+    k = d.weighted([(4, "clean.c"), (3, "clean.h"), (4, "viol"), (2, "fatal-garbage"), (2, "fatal-if"), (1, "fatal-if-deep"), (2, "lexical"),
+                    (2, "deep-parens"), (2, "bad-chars"), (1, "empty"), (4, "comment-scan"), (2, "header-only"), (2, "broken-header"), (1, "comments-only")])
     if k in ("header-only", "broken-header", "comments-only"):
         from .. import header42
         f = header42.fields(d, None)
@@ -74,7 +76,7 @@ def step_file(d):
     if k == "comment-scan":
         # comments at positions that rules scan over (a later file must not see them differently)
         body = []
-        for _ in range(d.int(1, 3)):
+        for _ in range(d.int(2, 6)):
             tpl, eol = d.choice(COMMENT_TEMPLATES)
             c = d.choice([" /* c */", " // c"] if eol else [" /* c */", "/* c */"])
             body.append(tpl.replace("{C}", c))
@@ -102,6 +104,11 @@ def history(d):
             s = {"cls": "guard-variant", "name": src["name"], "text": "\n".join(out)}
         elif steps and d.bool(0.15):
             s = dict(d.choice(steps))
+        elif steps and d.bool(0.12):
+            # the same content under another base name (for a header the expected guard follows the name)
+            src = d.choice(steps)
+            ext = os.path.splitext(src["name"])[1] or ".c"
+            s = {"cls": "same-content", "name": "copy_of_%d%s" % (len(steps), ext), "text": src["text"]}
         else:
             cls, name, text = step_file(d)
             s = {"cls": cls, "name": name, "text": text}
@@ -206,6 +213,52 @@ def check_history(camp, steps, label="history"):
             return
 
 
+CLI_CLASSES = {"clean.c", "clean.h", "viol", "lexical", "comment-scan", "guard-variant", "header-only", "broken-header", "comments-only", "same-content"}
+_SOLO = {}
+
+
+def _cli_blocks(argv, files):
+    with adapters.scratch() as dname:
+        adapters.write_tree(dname, files)
+        res = adapters.forked_cli(list(argv) + ["--no-colors"], dname)
+    if res.traceback:
+        return None
+    parsed, _ = adapters.parse_humanized(res.out)
+    return [(f["name"], f["verdict"], f["fatal"], tuple(map(tuple, f["diags"]))) for f in parsed]
+
+
+def cli_history(camp, steps):
+    """the same history as ONE command-line run over several paths: every file's block must be what the file gets when it is the only argument"""
+    usable = [s for s in steps if s["cls"] in CLI_CLASSES and not s["debug"] and not s["R"]]
+    if len(usable) < 2:
+        return
+    solo = []
+    for s in usable:
+        key = core.sha([s["name"], s["text"]])
+        if key not in _SOLO:
+            b = _cli_blocks(["f/" + s["name"]], {"f/" + s["name"]: s["text"]})
+            _SOLO[key] = b[0] if b and len(b) == 1 else None
+        solo.append(_SOLO[key])
+    if any(b is None or b[2] for b in solo):
+        return      # a file that is fatal (or unreported) on its own: what follows it in a run is C04's business
+    files = {"d%d/%s" % (i, s["name"]): s["text"] for i, s in enumerate(usable)}
+    got = _cli_blocks(list(files), files)
+    camp.case(core.sha(["cli", [(s["name"], s["text"]) for s in usable]]), len({s["name"] for s in usable}) >= 2 or len({s["text"] for s in usable}) >= 2)
+    camp.count("cli-histories")
+    case = {"cli_steps": [{"cls": s["cls"], "name": s["name"], "text": s["text"]} for s in usable]}
+    if got is None:
+        camp.count("cli-traceback(->C05)")
+        return
+    if len(got) != len(solo):
+        camp.fail("C06|cli|file-count", "%d files on the command line, %d blocks in the report" % (len(solo), len(got)), case)
+        return
+    for i, (g, b) in enumerate(zip(got, solo)):
+        if g != b:
+            camp.fail("C06|cli|%s|%s" % ("verdict" if g[1] != b[1] else "diagnostics", usable[i]["cls"]),
+                      "file %d (%s) in a run of %d files: %s %s; alone: %s %s" % (i, usable[i]["name"], len(usable), g[1], list(g[3])[:2], b[1], list(b[3])[:2]), case)
+            return
+
+
 def shard(seed, n):
     camp = core.Campaign()
 
@@ -213,6 +266,7 @@ def shard(seed, n):
         check_history(camp, steps)
         if len(steps) >= 2:
             check_history(camp, list(reversed(steps)), "reversed")
+        cli_history(camp, steps)
         if len(camp.samples) < 3 and camp.evaluations % 9 == 1:
             camp.samples.append([{"class": s["cls"], "name": s["name"], "debug": s["debug"], "R": s["R"]} for s in steps])
 
@@ -302,6 +356,8 @@ def permutations(camp, seed, nperm, ncorpus):
 
 def replay(pid, case):
     camp = core.Campaign()
+    if "cli_steps" in case:
+        cli_history(camp, [dict(x, debug=0, R=None) for x in case["cli_steps"]])
     if "steps" in case:
         check_history(camp, case["steps"])
     return [(k, b["what"]) for k, b in camp.buckets.items()]
@@ -311,7 +367,7 @@ def run(pid, tier, seed):
     t0 = time.time()
     if comparable({"status": "OK", "fatal": None, "crash": None, "diags": [["Error", "X", 1, 1]]}) == comparable({"status": "OK", "fatal": None, "crash": None, "diags": []}):
         raise core.HarnessError("comparison self-test failed")
-    shards, n, nperm, ncorpus = (16, 25, 4, 20) if tier == "quick" else (16, 150, 40, 50)
+    shards, n, nperm, ncorpus = (16, 40, 4, 20) if tier == "quick" else (16, 150, 40, 50)
     camp = core.Campaign()
     for name, rc in core.regress_cases(pid):
         for k, what in replay(pid, rc["case"]):
